@@ -406,7 +406,7 @@ func driveEvents(c *hx.Ctx) error {
 	// --- stream "histories": random histories
 	r := c.Rand("events/histories")
 	sh := c.NewShard("histories", imports, "ev_case", "corr_events", "holds_events", 40)
-	n := c.Pick(160, 1500)
+	n := c.Pick(400, 1500)
 	ties, concurrent, midreg := 0, 0, 0
 	for h := 0; h < n; h++ {
 		k := 2 + r.Intn(7)
